@@ -89,7 +89,7 @@ Fixpoint chk_md_run (uid0 : N) (l : layout) (st : mstate) (steps : list (op * ex
   | [] => acc_final a
   | (o, e) :: rest =>
     let '(st', out) := mstep uid0 l st o in
-    chk_md_run uid0 l st' rest (check_out false a out e)
+    chk_md_run uid0 l st' rest (check_out true a out e)
   end.
 
 Definition chk_md (c : layout * mbox * N * list (op * expect)) : bool :=
